@@ -180,7 +180,7 @@ def gen_case(rng, cls=None, force=None):
         if kind not in ALLOWED[cls]:
             kind = ALLOWED[cls][0]
         f = {"name": f"{kind[0]}{i}", "kind": kind}
-        share = rng.choice([0, 0, 0.05, 0.15, 0.3])
+        share = force.get("nan_share") or rng.choice([0, 0, 0.05, 0.15, 0.3])
         if kind == "quant":
             xs, fl, dt = gen_quant(rng, n, force.get("qflavour"))
             if dt == "int64":
@@ -209,14 +209,20 @@ def gen_case(rng, cls=None, force=None):
         params["unknown"] = rng.choice(["raise", "drop"])
     case = {"valid": True, "cls": cls, "params": params, "features": feats,
             "y": gen_target(rng, decs(feats[0]["values"]), feats[0]["kind"], n, mode)}
-    if cls not in CARVERS and rng.random() < 0.35:
+    if "dropna" in force:
+        params["dropna"] = force["dropna"]
+    if cls not in CARVERS and (force.get("edit") or rng.random() < 0.35):
         # Discretizer classes hard-code output_dtype='str', dropna=True; the other configurations
         # are reached by loading the edited JSON of the fitted object (a BaseDiscretizer)
         case["edit"] = {"output_dtype": params["output_dtype"], "dropna": params["dropna"]}
     if "edit_op" in force or rng.random() < 0.15:
-        # manual edit before dumping (update_discretizer); leaders are picked at run time
+        # manual edit before dumping (update_discretizer); leaders are picked at run time.
+        # "nan": missing values are grouped into an existing modality (only applied when NaN is
+        # still a modality of its own, i.e. objects with dropna=False): this sets the feature's
+        # features_dropna flag to True, which then differs from the global dropna
         case["edit_op"] = force.get("edit_op") or {"feat": rng.randrange(8), "pick": rng.randrange(100),
-                                                   "mode": rng.choice(["group", "replace"])}
+                                                   "mode": rng.choice(["group", "replace"]),
+                                                   "nan": rng.random() < 0.4}
     m = 6
     probes = {k: {} for k in ("inside", "outside", "nan", "unseen")}
     for f in feats:
@@ -322,7 +328,17 @@ def fit_object(case):
         js["features_dropna"] = {f: case["edit"]["dropna"] for f in js["features"]}
         obj = load_discretizer(js)
     op = case.get("edit_op")
-    if op:                                   # manual edit before dumping
+    if op and op.get("nan"):                 # manual edit: NaN grouped into an existing modality
+        names = [n for n in obj.values_orders
+                 if obj.str_nan in list(obj.values_orders[n])
+                 and list(obj.values_orders[n].get(obj.str_nan)) == [obj.str_nan]]
+        for name in (names[op["feat"] % len(names):] + names[:op["feat"] % len(names)] if names else []):
+            leaders = [k for k in obj.values_orders[name] if k not in (obj.str_nan, obj.str_default)]
+            if leaders:
+                obj.update_discretizer(name, op["mode"], NAN, leaders[op["pick"] % len(leaders)])
+                if not op.get("all"):
+                    break
+    elif op:                                 # manual edit before dumping
         names = list(obj.values_orders)
         if names:
             name = names[op["feat"] % len(names)]
@@ -477,6 +493,8 @@ def observe(case, obj):
         if not leq(list(g), list(g.content)):
             out["content_in_list_order"] = False
     out["feats"] = feats
+    out["features_dropna_differs_from_dropna"] = any(bool(v) != bool(obj.dropna)
+                                                     for v in obj.features_dropna.values())
     try:
         j = obj.to_json()
         txt = json.dumps(j)
@@ -779,7 +797,18 @@ class C06(Prop):
             cls = CLASSES[i % len(CLASSES)] if i < 4 * len(CLASSES) else None
             force = {}
             r = rng.random()
-            if r < 0.02:
+            if i % 10 == 9:
+                # family: objects with dropna=False whose missing values are manually grouped before
+                # dumping (features_dropna then differs from the global dropna)
+                cls = rng.choice(["BinaryCarver", "ContinuousCarver", "MulticlassCarver", "Discretizer",
+                                  "QuantitativeDiscretizer", "QualitativeDiscretizer"])
+                kinds = [k for k in ALLOWED[cls] if k != "ord"]
+                force = {"dropna": False, "edit": True, "nan_share": rng.choice([0.1, 0.2, 0.3]),
+                         "kind": rng.choice(kinds), "n": rng.choice([80, 120, 200]),
+                         "edit_op": {"feat": rng.randrange(8), "pick": rng.randrange(100), "nan": True,
+                                     "mode": rng.choice(["group", "group", "replace"]),
+                                     "all": rng.random() < 0.5}}
+            elif r < 0.02:
                 cls, force = rng.choice(["QualitativeDiscretizer", "Discretizer", "BinaryCarver"]), \
                     {"kind": "cat", "cflavour": "sentinel"}
             cases.append(gen_case(rng, cls, force))
@@ -818,8 +847,10 @@ class C06(Prop):
             return None
         kinds = ",".join(sorted(f"{f['kind']}:{f['flavour']}" for f in case["features"]))
         p = case["params"]
+        eo = case.get("edit_op", {})
         cfg = (f"{p.get('output_dtype')}/{p.get('dropna')}/{'edit' if case.get('edit') else '-'}/"
-               f"{case.get('edit_op', {}).get('mode', '-')}")
+               f"{eo.get('mode', '-')}{'-nan' if eo.get('nan') else ''}/"
+               f"fd={out.get('features_dropna_differs_from_dropna')}")
         pr = ",".join(sorted({k for k, _ in problems_of(case, out)})) or "holds"
         tk = ",".join(f"{k}={v}" for k, v in sorted(out.get("transform_kinds", {}).items()))
         return f"{case['cls']}|{kinds}|{cfg}|{pr}|{tk}|{out.get('content_in_list_order')}"
@@ -918,6 +949,10 @@ class C06(Prop):
                 h["features_order_differs_in_second_dump"] += 1
             if not o.get("content_in_list_order", True):
                 h["content_dict_not_in_list_order"] += 1
+            if o.get("features_dropna_differs_from_dropna"):
+                h["features_dropna_differs_from_dropna"] = h.get("features_dropna_differs_from_dropna", 0) + 1
+            if c["cls"] == "MulticlassCarver":
+                h["non_trivial_features_casting"] = h.get("non_trivial_features_casting", 0) + 1
         return h
 
 
